@@ -1,5 +1,6 @@
 """Scenario families for the simulation-bound checks. A scenario is plain JSON interpreted by harness/src/scen.rs."""
 import itertools
+import json
 import random
 
 REL = {"rel": "RELIABLE", "dur": "VOLATILE", "hist": 0}
@@ -526,6 +527,26 @@ def c16(tier, seed):
             steps += [{"do": "sleep", "ms": 1200}] + obs + [{"do": "silence_participant", "part": 2}, {"do": "sleep", "ms": 101500}, {"do": "sleep", "ms": 1200}] + obs
             steps += [{"do": "sleep", "ms": 1500}] + obs
             out.append({"name": f"C16-departure-{local}-{rel[:3]}", "family": "departure", "seed": 1, "frag": 1344, "steps": steps, "max_steps": 8000000})
+    # lossy: the same kind of random histories while the discovery traffic is lossy, duplicated and reordered; only the final
+    # matched sets (after heal and a settle time) are determined by the history
+    nl = 15 if tier == "quick" else 200
+    base = [x for x in out if x["family"] == "hist"]
+    for k in range(min(nl, len(base))):
+        d = json.loads(json.dumps(base[k]))
+        st = [x for x in d["steps"] if x["do"] not in ("pub_status", "sub_status")]
+        npart = sum(1 for x in st if x["do"] == "participant")
+        st.insert(npart, {"do": "meta_faults", "loss": rng.choice([0.3, 0.5]), "dup": 0.2, "delay": 0.4, "max_delay_ms": rng.choice([50, 400])})
+        nw = sum(1 for x in st if x["do"] == "create_writer")
+        nr = sum(1 for x in st if x["do"] == "create_reader")
+        dead = {x["r"] for x in st if x["do"] == "delete_reader"}
+        st += [{"do": "heal"}, {"do": "sleep", "ms": 8000}] + [{"do": "pub_status", "w": w} for w in range(nw)]
+        if any(x["do"] == "delete_participant" for x in st):
+            # a lost deletion announcement is only repaired by the lease
+            st += [{"do": "sleep", "ms": 103000}] + [{"do": "pub_status", "w": w} for w in range(nw)]
+        d["steps"] = st
+        d["name"] = base[k]["name"] + "-lossy"
+        d["family"] = "lossy"
+        out.append(d)
     # requalify: every history of three deadline values of one remote reader against a writer offering 2 s
     dls = [None, 1000, 5000]
     for a in dls:
